@@ -471,20 +471,20 @@ func (s *Solver) cleanup(file string, r SolveResult) {
 }
 
 type OblResult struct {
-	Name     string
-	Kind     string
-	Tags     []string
-	Desc     string
-	Pos      string
-	Paths    int
-	Trivial  int
-	Status   string // proved | failed
-	Fail     *SolveResult
-	FailObl  *Obligation
-	Solver   map[string]int
-	Secs     float64
-	MaxSecs  float64
-	SlowFile string
+	Name       string
+	Kind       string
+	Tags       []string
+	Desc       string
+	Pos        string
+	Paths      int
+	Trivial    int
+	Status     string // proved | failed
+	Fail       *SolveResult
+	FailObl    *Obligation
+	Solver     map[string]int
+	Secs       float64
+	MaxSecs    float64
+	SlowFile   string
 	SlowSolver string
 }
 
